@@ -1135,8 +1135,9 @@ class TermCanvas(Canvas):
                         bg = color
                     idx += 2
                 elif idx + 4 < len(attrs) and attrs[idx + 1] == 2:
-                    # 24 bit color specification
-                    color = (attrs[idx + 2] << 16) + (attrs[idx + 3] << 8) + attrs[idx + 4]
+                    # 24 bit color specification (a component above 255 is clipped)
+                    red, green, blue = (min(value, 255) for value in attrs[idx + 2 : idx + 5])
+                    color = (red << 16) + (green << 8) + blue
                     colors = 2**24
                     if attr == 38:
                         fg = color
